@@ -128,10 +128,21 @@ ORDER_ACCEPTABLE = FSpec("Order.check_system_acceptable", props=("C04",), modifi
                                                                        O(st, "is_canceled")[a["self"].term])})
 
 
-@task("Order lifetime predicates", props=["C04"], functions=["Order.is_expired", "Order.check_system_acceptable"], replay="order_cmp")
+def _cancel_bad(st, a):
+    c = a["self"].term
+    o = st.F("Cancel", "order")[c]
+    return z3.Or(a["agent_id"].term != O(st, "agent_id")[o], z3.Not(st.F("Cancel", "placed_at", "none")[c]), O(st, "is_canceled")[o])
+
+
+CANCEL_ACCEPTABLE = FSpec("Cancel.check_system_acceptable", props=("C04",), modifies=lambda st, a: [],
+                          post=lambda st0, st1, a, res: [("returns normally only for an unplaced cancel, by the owner, of an order not yet cancelled", z3.BoolVal(True))],
+                          raises={"AttributeError": _cancel_bad})
+
+
+@task("Order lifetime predicates", props=["C04"], functions=["Order.is_expired", "Order.check_system_acceptable", "Cancel.check_system_acceptable"], replay="order_cmp")
 def t_order_predicates():
     obl, info = [], []
-    for sp in (ORDER_IS_EXPIRED, ORDER_ACCEPTABLE):
+    for sp in (ORDER_IS_EXPIRED, ORDER_ACCEPTABLE, CANCEL_ACCEPTABLE):
         o, i = sp.verify()
         obl += o
         info.append(i)
